@@ -78,7 +78,7 @@ class HOADecoderDesign(object):
 
         # apply maxRE weights
         if self.maxRE:
-            a_n = hoa.ApproxMaxRECoefficients(max(n))[n]
+            a_n = hoa.ApproxMaxRECoefficients(max(n))
 
             # various options proposed for scaling maxRE weights to preserve
             # loudness; this is irrelevant if norm_mean_power is used.
